@@ -28,6 +28,17 @@ use crate::certgen::*;
 use crate::jsonfmt::{self, Style};
 use crate::util::{arbitrary_string, block_on, clip, hex_string, interesting_u64, sha_hex};
 
+/// violation + a per-signature counter (vcore keeps 30 witnesses; the counters keep every class)
+trait ViolationCounted {
+    fn v(&mut self, signature: &str, what: &str, replay: Value);
+}
+impl ViolationCounted for Monitor {
+    fn v(&mut self, signature: &str, what: &str, replay: Value) {
+        self.count(&format!("viol|{signature}"));
+        self.violation(signature, what, replay);
+    }
+}
+
 // ---------------------------------------------------------------------------------------------
 // canonical field dump (harness-side notion of "the same certificate")
 
@@ -717,7 +728,7 @@ pub fn part_a(cert: &Certificate, origin: &str, rng: &mut ChaCha20Rng, pools: &P
                 continue;
             }
             Err(p) => {
-                mon.violation(
+                mon.v(
                     "C04 try_compute_hash panics on a certificate in the quantifier",
                     &format!("mutator {}: {p}", mu.id),
                     json!({"part":"a","mutator":mu.id,"certificate":message_json(cert),"mutant":message_json(&mu.cert)}),
@@ -730,7 +741,7 @@ pub fn part_a(cert: &Certificate, origin: &str, rng: &mut ChaCha20Rng, pools: &P
                 if h1 == h0 {
                     mon.count("a.hash_field_is_output_not_input");
                 } else {
-                    mon.violation(
+                    mon.v(
                         "C04 certificate hash depends on its own hash field",
                         &format!("mutator {}", mu.id),
                         json!({"part":"a","mutator":mu.id,"certificate":message_json(cert),"mutant":message_json(&mu.cert)}),
@@ -746,7 +757,7 @@ pub fn part_a(cert: &Certificate, origin: &str, rng: &mut ChaCha20Rng, pools: &P
                     mon.count("a.hash_changed");
                 } else {
                     mon.count("a.HASH_UNCHANGED");
-                    mon.violation(
+                    mon.v(
                         &format!("C04 certificate hash unchanged by single-field change: {}", class_of(&mu.id)),
                         &format!(
                             "fields that differ: {:?}; both certificates hash to {h0} (origin: {origin})",
@@ -823,7 +834,7 @@ fn judge_pair(tag: &str, m1: &ProtocolMessage, m2: &ProtocolMessage, mon: &mut M
     mon.count(&format!("b.pairs.{tag}"));
     if equal {
         if d1 != d2 {
-            mon.violation(
+            mon.v(
                 "C04 equal protocol messages have different digests",
                 &format!("construction {tag}"),
                 json!({"part":"b","construction":tag,"m1":pm_repr(m1),"m2":pm_repr(m2)}),
@@ -838,7 +849,7 @@ fn judge_pair(tag: &str, m1: &ProtocolMessage, m2: &ProtocolMessage, mon: &mut M
     }
     if d1 == d2 {
         if g {
-            mon.violation(
+            mon.v(
                 &format!("C04 distinct well-formed protocol messages share a digest ({tag})"),
                 &format!("digest {d1}"),
                 json!({"part":"b","construction":tag,"m1":pm_repr(m1),"m2":pm_repr(m2),"digest":d1}),
@@ -1088,7 +1099,7 @@ pub fn part_c(cert: &Certificate, origin: &str, ctx: &ChainCtx, rng: &mut ChaCha
     let msg = match CertificateMessage::try_from(cert.clone()) {
         Ok(m) => m,
         Err(e) => {
-            mon.violation(
+            mon.v(
                 "C04 certificate cannot be converted to its API message",
                 &format!("{e:#}"),
                 json!({"part":"c","dump":d0}),
@@ -1105,7 +1116,7 @@ pub fn part_c(cert: &Certificate, origin: &str, ctx: &ChainCtx, rng: &mut ChaCha
         let msg2: CertificateMessage = match vcore::catch(|| serde_json::from_str::<CertificateMessage>(&text)) {
             Ok(Ok(m)) => m,
             Ok(Err(e)) => {
-                mon.violation(
+                mon.v(
                     &format!("C04 re-serialised certificate message is rejected by the JSON decoder ({class})"),
                     &format!("{label}: {e}; text: {}", clip(&text, 300)),
                     replay(),
@@ -1113,7 +1124,7 @@ pub fn part_c(cert: &Certificate, origin: &str, ctx: &ChainCtx, rng: &mut ChaCha
                 continue;
             }
             Err(p) => {
-                mon.violation(
+                mon.v(
                     &format!("C04 decoding a re-serialised certificate message panics ({class})"),
                     &format!("{label}: {p}"),
                     replay(),
@@ -1124,7 +1135,7 @@ pub fn part_c(cert: &Certificate, origin: &str, ctx: &ChainCtx, rng: &mut ChaCha
         let c2 = match vcore::catch(|| Certificate::try_from(msg2)) {
             Ok(Ok(c)) => c,
             Ok(Err(e)) => {
-                mon.violation(
+                mon.v(
                     &format!("C04 re-serialised certificate message does not convert back to a certificate ({class})"),
                     &format!("{label}: {e:#}"),
                     replay(),
@@ -1132,7 +1143,7 @@ pub fn part_c(cert: &Certificate, origin: &str, ctx: &ChainCtx, rng: &mut ChaCha
                 continue;
             }
             Err(p) => {
-                mon.violation(
+                mon.v(
                     &format!("C04 converting a re-serialised certificate message panics ({class})"),
                     &format!("{label}: {p}"),
                     replay(),
@@ -1153,7 +1164,7 @@ pub fn part_c(cert: &Certificate, origin: &str, ctx: &ChainCtx, rng: &mut ChaCha
         let hash_changed = h2 != h0 || c2.hash != cert.hash;
         if hash_changed {
             mon.count(&format!("c.HASH_CHANGED.{class}"));
-            mon.violation(
+            mon.v(
                 &format!("C04 wire round trip changes the certificate hash (altered by the round trip: {altered})"),
                 &format!("{label}: hash {h0} -> {h2}, hash field {} -> {}, fields that differ: {diff:?}", cert.hash, c2.hash),
                 replay(),
@@ -1162,7 +1173,7 @@ pub fn part_c(cert: &Certificate, origin: &str, ctx: &ChainCtx, rng: &mut ChaCha
             mon.count("c.same_hash");
         }
         if c2.signed_message != cert.signed_message || c2.protocol_message.compute_hash() != pm0 {
-            mon.violation(
+            mon.v(
                 &format!("C04 wire round trip changes the signed message (altered by the round trip: {altered})"),
                 &format!("{label}: signed_message {} -> {}, protocol message digest {pm0} -> {}", cert.signed_message, c2.signed_message, c2.protocol_message.compute_hash()),
                 replay(),
@@ -1176,7 +1187,7 @@ pub fn part_c(cert: &Certificate, origin: &str, ctx: &ChainCtx, rng: &mut ChaCha
                 // consequence of the changed hash, already reported
                 mon.count("c.verdict_changed_together_with_hash");
             } else {
-                mon.violation(
+                mon.v(
                     &format!("C04 wire round trip changes the verification outcome (altered by the round trip: {altered})"),
                     &format!("{label}: before {v0:?}, after {v2:?}"),
                     replay(),
@@ -1321,3 +1332,71 @@ pub const ASSUMPTIONS: [&str; 5] = [
     "single-field = one leaf field of the destructuring; two-field boundary shifts (network|protocol_version) and out-of-range timestamps are diagnostics, not violations",
     "integer fields are kept in integer spelling (serde_json refuses 1.0 for u64; counted as diagnostic)",
 ];
+
+/// `--replay FILE`: re-judge the stored case
+pub fn replay(_args: &vcore::Args, file: &std::path::Path) -> ! {
+    let doc: Value = serde_json::from_slice(&std::fs::read(file).expect("replay file")).expect("replay JSON");
+    let r = &doc["replay"];
+    let to_cert = |v: &Value| -> Option<Certificate> {
+        let m: CertificateMessage = serde_json::from_value(v.clone()).ok()?;
+        Certificate::try_from(m).ok()
+    };
+    match r["part"].as_str() {
+        Some("a") => {
+            let (Some(c), Some(m)) = (to_cert(&r["certificate"]), to_cert(&r["mutant"])) else {
+                println!("INCONCLUSIVE property=C04 replay file does not hold two decodable certificates");
+                std::process::exit(2)
+            };
+            let (h0, h1) = (c.try_compute_hash().unwrap_or_default(), m.try_compute_hash().unwrap_or_default());
+            let diff = dump_diff(&dump(&c), &dump(&m));
+            println!("[C04 replay] mutator {}: fields that differ {:?}; hashes {h0} / {h1}", r["mutator"], diff);
+            let inputs_differ = diff.iter().any(|f| f != "hash");
+            if inputs_differ && h0 == h1 {
+                println!("VIOLATION property=C04 replay={}", file.display());
+                std::process::exit(1);
+            }
+            println!("HELD property=C04 on the replayed case");
+            std::process::exit(0);
+        }
+        Some("b") => {
+            let mk = |v: &Value| -> ProtocolMessage {
+                let mut pm = ProtocolMessage::new();
+                if let Some(o) = v["parts"].as_object() {
+                    for k in all_part_keys() {
+                        if let Some(Value::String(s)) = o.get(&k.to_string()) {
+                            pm.set_message_part(k, s.clone());
+                        }
+                    }
+                }
+                pm
+            };
+            let (m1, m2) = (mk(&r["m1"]), mk(&r["m2"]));
+            println!("[C04 replay] digests {} / {}", m1.compute_hash(), m2.compute_hash());
+            if m1 != m2 && m1.compute_hash() == m2.compute_hash() && pm_in_grammar(&m1) && pm_in_grammar(&m2) {
+                println!("VIOLATION property=C04 replay={}", file.display());
+                std::process::exit(1);
+            }
+            println!("HELD property=C04 on the replayed case");
+            std::process::exit(0);
+        }
+        Some("c") => {
+            let text = r["text"].as_str().unwrap_or("");
+            let expected = r["expected_hash"].as_str().unwrap_or("");
+            let got = serde_json::from_str::<CertificateMessage>(text)
+                .ok()
+                .and_then(|m| Certificate::try_from(m).ok())
+                .and_then(|c| c.try_compute_hash().ok());
+            println!("[C04 replay] variant {}: expected hash {expected}, after the round trip {:?}", r["variant"], got);
+            if got.as_deref() != Some(expected) {
+                println!("VIOLATION property=C04 replay={}", file.display());
+                std::process::exit(1);
+            }
+            println!("HELD property=C04 on the replayed case (hash only; the verdict comparison needs the chain of the run)");
+            std::process::exit(0);
+        }
+        _ => {
+            println!("INCONCLUSIVE property=C04 unknown replay file");
+            std::process::exit(2)
+        }
+    }
+}
